@@ -9,7 +9,7 @@ import ast
 
 from ..core import AnchorError, atoms, call_name, dotted_text, names_in, norm, short, own_nodes, kwarg, FUNC_TYPES
 from ..cfg import cfg_of
-from ..lib import calls_in, stmts_in, gate, must_pass, node_has, params, param_default, attr_stores
+from ..lib import calls_in, stmts_in, gate, must_pass, node_has, params, param_default, attr_stores, key_function
 
 ACCESS = 'jedi.inference.compiled.access'
 VALUE = 'jedi.inference.compiled.value'
@@ -740,8 +740,13 @@ def rule_e(repo, chk):
         p = c.reach([c.entry], lambda n: n.id in ids, block_edge=blk)
         chk.ob('C13.e', p is None, r, 'on the values() path `return []` is unreachable', 'path: %s' % c.describe(p) if p else '')
     vals = repo.find(VALUE, 'CompiledValueFilter.values')
-    lam = [x for x in ast.walk(vals) if isinstance(x, ast.Lambda)]
-    ok = any(norm(l.body) == 'name in dir_infos' for l in lam)
+    # the callable handed to _get as in_dir_callback (third positional or keyword): a lambda, a local def or a method - resolved
+    gets = [c_ for c_ in calls_in(vals, '_get', nested=True) if norm(c_.func) == 'self._get']
+    ok = bool(gets)
+    for c_ in gets:
+        cb = kwarg(c_, 'in_dir_callback') or (c_.args[2] if len(c_.args) > 2 else None)
+        kf = key_function(repo, vals, cb) if cb is not None else None
+        ok = ok and kf is not None and kf[0] == ['%s in dir_infos' % kf[1]]
     chk.ob('C13.e', ok, vals, 'in_dir_callback on the values() path is membership in the same dir_infos')
 
 
